@@ -237,7 +237,10 @@ def compare_spec(chk, cases, results, stream="sheet-spec", limit=400):
     for i, ((o, css), res) in enumerate(zip(cases, results)):
         if "panic" in res or "tokens_in" not in res or o.get("import_sign") is not None:
             continue
-        reqs.append(core.req(*opts_fields(o), res["tokens_in"]))
+        r_ = core.req(*opts_fields(o), res["tokens_in"])
+        if any(isinstance(v, str) and any(ord(c) < 32 for c in v) for v in o.values()):
+            continue          # (SpecRun answers one line per request and prints string payloads raw: option strings with control characters (line breaks, tabs) are left to corr:css)
+        reqs.append(r_)
         idx.append(i)
         if len(reqs) >= limit:
             break
